@@ -32,7 +32,8 @@
   Outside the fidelity zone (answer `unmodelled`): `$sample`, `$out`, `$graphLookup` (C16 / not
   this property), stage operands of an unexpected Python type where the code's behaviour is an
   accident of `in` / iteration on that type, sort / group keys on which `bson_compare` is not a
-  strict weak order (see MongoModel.Sort.keyShallow), `min`/`max` over lists, inexact floats.
+  strict weak order (see MongoModel.Sort.keyShallow), comparisons of library-generated ObjectIds,
+  inexact floats.
 
   Everything lives in namespace `MongoModel.Pipe`.  Core Lean only.
 -/
@@ -422,56 +423,64 @@ def lookupStage (db : Db) : Val → List Val → R (List Val)
 
 /-! ### accumulators: `_accumulate_group` / `_GROUPING_OPERATOR_MAP` -/
 
-/-- `values`: the expression on every document of the group, KeyErrors skipped -/
-def accValues (key : Val) : List Val → R (List Val)
+/-- `values`: the expression on every document of the group, evaluated like a computed field
+    (`ignore_missing_keys=True`: an operator reads a missing operand as null); a KeyError — the
+    value itself is missing — is skipped, except by `$first` / `$last`, which take None for it -/
+def accValues (firstLast : Bool) (key : Val) : List Val → R (List Val)
   | [] => .ok []
   | d :: ds =>
-    match Expr.evalExprStrict d key with
+    match Expr.evalExpr d key with
     | .error e => .error e
     | .ok r =>
-      match accValues key ds with
+      match accValues firstLast key ds with
       | .error e => .error e
-      | .ok vs => .ok (match r with | some v => v :: vs | none => vs)
+      | .ok vs => .ok (match r with
+                       | some v => v :: vs
+                       | none => if firstLast then .null :: vs else vs)
 
-/-- comparison class of a scalar for Python's native `<` -/
-def nativeClass : Val → Option Nat
-  | .bool _ | .int _ | .dbl _ _ => some 0
-  | .str _ => some 1
-  | .date _ none => some 2
-  | _ => none
+/-- `isinstance(v, numbers.Number) and not isinstance(v, bool)` -/
+def accNums : List Val → List Expr.PyNum
+  | [] => []
+  | .int n :: r => .i n :: accNums r
+  | .dbl m e :: r => .f m e :: accNums r
+  | _ :: r => accNums r
 
-def dateExtremum (isMax : Bool) : List Val → Val → Val
-  | [], best => best
-  | .date u none :: r, .date b none =>
-    if (if isMax then b < u else u < b) then dateExtremum isMax r (.date u none)
-    else dateExtremum isMax r (.date b none)
-  | _ :: r, best => dateExtremum isMax r best
+/-- `_sum_operation`: `sum` of the numbers (booleans are no numbers here) -/
+def accSum (xs : List Val) : R Val :=
+  match Expr.sumNums (accNums xs) (.i 0) with
+  | .error e => .error e
+  | .ok s => s.toVal
 
-/-- Python `min(values)` / `max(values)` over the non-None values: numbers, strings and naive
-    datetimes compare within their class; two values of different classes, two dicts or two
-    ObjectIds raise TypeError; lists compare element-wise — not modelled -/
+/-- `_avg_operation`: None without numbers, else `sum(values) / float(len(values))` -/
+def accAvg (xs : List Val) : R Val :=
+  let ns := accNums xs
+  if ns.isEmpty then .ok .null
+  else
+    match Expr.sumNums ns (.i 0) with
+    | .error e => .error e
+    | .ok s => Expr.pyDivide s (.f ns.length 0)
+
+/-- Python `min(values, key=BsonComparable)` / `max(…)`: one pass, the first extremal element
+    wins; `min` replaces on `key(item) < key(best)`, `max` on `key(item) > key(best)`, which —
+    `BsonComparable` defining `__lt__` only — is the reflected `key(best) < key(item)`; a
+    comparison that raises (naive against aware datetime) makes the accumulator raise -/
+def accMinMaxGo (isMax : Bool) : List Val → Val → R Val
+  | [], best => .ok best
+  | v :: r, best =>
+    match (if isMax then bsonCompare .lt best v true else bsonCompare .lt v best true) with
+    | .error e => .error e
+    | .ok b => accMinMaxGo isMax r (if b then v else best)
+
+/-- `_group_operation(values, min | max)`: None dropped, None when nothing is left -/
 def accMinMax (isMax : Bool) (xs : List Val) : R Val :=
-  let ys := xs.filter (fun v => !Expr.isNull v)
-  match ys with
+  match xs.filter (fun v => !Expr.isNull v) with
   | [] => .ok .null
-  | [y] => .ok y
-  | y :: r =>
-    if ys.any Val.isArr then unmodelled
-    else if ys.any (fun v => match v with | .date _ (some _) => true | _ => false) then unmodelled
-    else if ys.all (fun v => nativeClass v == some 0) then .ok (Expr.extremum isMax r y)
-    else if ys.all (fun v => nativeClass v == some 1) then
-      match Expr.strsOf ys with
-      | some (s :: ss) => .ok (.str (Expr.extremumStr isMax ss s))
-      | _ => unmodelled
-    else if ys.all (fun v => nativeClass v == some 2) then .ok (dateExtremum isMax r y)
-    else .error .typeErr
+  | y :: r => accMinMaxGo isMax r y
 
-/-- the `$addToSet` loop: `val or None`, then first occurrences -/
+/-- the `$addToSet` loop: first occurrences (Python `in`: `==`) -/
 def addToSetLoop : List Val → List Val → List Val
   | [], acc => acc
-  | v :: r, acc =>
-    let e := if v.truthy then v else .null
-    addToSetLoop r (if pyIn e acc then acc else acc ++ [e])
+  | v :: r, acc => addToSetLoop r (if pyIn v acc then acc else acc ++ [v])
 
 /-- `dict.update` over the dict values -/
 def mergeObjects : List Val → Fields → Fields
@@ -481,7 +490,10 @@ def mergeObjects : List Val → Fields → Fields
 
 /-- one accumulator on the values of its group -/
 def accApply (op : String) (values : List Val) : R Val :=
-  if op = "$sum" || op = "$avg" || op = "$first" || op = "$last" then Expr.groupingOnList op values
+  if op = "$sum" then accSum values
+  else if op = "$avg" then accAvg values
+  else if op = "$first" then .ok (values.head?.getD .null)
+  else if op = "$last" then .ok (values.getLast?.getD .null)
   else if op = "$min" then accMinMax false values
   else if op = "$max" then accMinMax true values
   else if op = "$mergeObjects" then .ok (.doc (mergeObjects values []))
@@ -500,7 +512,7 @@ def accumulate : Fields → List Val → R Fields
       match spec with
       | .doc [] => accumulate rest group
       | .doc [(op, key)] =>
-        match accValues key group with
+        match accValues (op = "$first" || op = "$last") key group with
         | .error e => .error e
         | .ok values =>
           match accApply op values with
@@ -562,7 +574,7 @@ def groupStage : Val → List Val → R (List Val)
     match dget "_id" options with
     | none => .error .keyErr
     | some idExpr =>
-      if idExpr.truthy then
+      if !(Expr.isNull idExpr) then                   -- `if _id is not None`
         match keyed idExpr docs with
         | .error e => .error e
         | .ok kds =>
@@ -571,7 +583,7 @@ def groupStage : Val → List Val → R (List Val)
             match pySorted keyedLt false kds with
             | .error e => .error e
             | .ok sorted => emitGroups options (groupRuns sorted)
-      else emitGroups options [(.null, docs)]
+      else emitGroups options (if docs.isEmpty then [] else [(.null, docs)])
   | _, _ => .error .typeErr                           -- `options['_id']` on a non-dict
 
 /-! ### `$bucket` (aggregate.py:1289-1349) -/
